@@ -22,7 +22,10 @@ Levels(n) == CASE n = "t/a" -> <<"t", "a">> [] n = "t/b" -> <<"t", "b">> [] n = 
                [] n = "t/+" -> <<"t", "+">> [] n = "#" -> <<"#">> [] n = "ab" -> <<"ab">> [] n = "cd" -> <<"cd">>
                [] n = "pre/x" -> <<"pre", "x">> [] n = "pre/z" -> <<"pre", "z">> [] n = "own/z" -> <<"own", "z">>
                [] n = "t/new" -> <<"t", "new">> [] OTHER -> <<n>>
-IsShort(n) == n \in {"ab", "cd"}
+\* "x:c3a9" is the harness token (absmap.EncName) of the two-byte name c3 a9 (one non-ASCII UTF-8 character)
+Hi == "x:c3a9"
+IsShort(n) == n \in {"ab", "cd", Hi}
+Shorts == IF "hishort" \in Groups THEN {"ab", Hi} ELSE {"ab"}
 
 A0 == [t |-> "Api", call |-> "", api |-> "", async |-> FALSE, topic |-> "", tl |-> <<>>, short |-> FALSE, qos |-> 0,
        tid |-> 0, dur |-> 0, h |-> "", pl |-> "s:", retain |-> FALSE, pubs |-> <<>>, n |-> 0]
@@ -38,15 +41,15 @@ BPub(st, ps) == [A0 EXCEPT !.t = "BPub", !.pubs = ps, !.n = 80]
 Calls(st) ==
     (IF "conn" \in Groups THEN {Plain("Connect"), Plain("Disconnect"), Plain("Ping")} ELSE {})
     \cup (IF "reg" \in Groups THEN {Api("Register", n, 0, "") : n \in {"t/a", "t/b"}} ELSE {})
-    \cup (IF "sub" \in Groups THEN {Api("Subscribe", n, q, h) : n \in {"t/a", "t/#", "t/+", "ab"}, q \in Qoss \ {3}, h \in {"h1", "h2"}}
-                                   \cup {Api("Unsubscribe", n, 0, "") : n \in {"t/a", "t/#", "ab"}} ELSE {})
-    \cup (IF "pub" \in Groups THEN {Api("Publish", n, q, "") : n \in {"t/a", "ab", "t/b"}, q \in Qoss} ELSE {})
+    \cup (IF "sub" \in Groups THEN {Api("Subscribe", n, q, h) : n \in {"t/a", "t/#", "t/+"} \cup Shorts, q \in Qoss \ {3}, h \in {"h1", "h2"}}
+                                   \cup {Api("Unsubscribe", n, 0, "") : n \in {"t/a", "t/#"} \cup Shorts} ELSE {})
+    \cup (IF "pub" \in Groups THEN {Api("Publish", n, q, "") : n \in {"t/a", "t/b"} \cup Shorts, q \in Qoss} ELSE {})
     \cup (IF "pre" \in Groups THEN {ApiId("SubscribePredefined", i, 1, "hp") : i \in {5, 6, 7}}
                                    \cup {ApiId("PublishPredefined", i, q, "") : i \in {5, 6, 7, 9}, q \in Qoss}
                                    \cup {ApiId("UnsubscribePredefined", i, 0, "") : i \in {6}} ELSE {})
     \cup (IF "sleep" \in Groups THEN {[Plain("Sleep") EXCEPT !.dur = 20], [Plain("Sleep") EXCEPT !.dur = 20, !.async = TRUE]} ELSE {})
 
-BNames == {"t/a", "t/new", "ab", "pre/x", "pre/z", "own/z"}
+BNames == {"t/a", "t/new", "pre/x", "pre/z", "own/z"} \cup Shorts
 BPubs(st) ==
     IF "bpub" \notin Groups THEN {}
     ELSE {BPub(st, <<Pub(st, n, q, 1)>>) : n \in BNames, q \in Qoss \ {3}}
